@@ -1471,7 +1471,7 @@ write_gvar_data(Relocation *cur, Initializer *init, Type *ty, char *buf, int off
   }
 
   char **label = NULL;
-  uint64_t val = eval2(init->expr, &label);
+  uint64_t val = eval2(new_cast(init->expr, ty), &label);
 
   if (!label) {
     write_buf(buf + offset, val, ty->size);
